@@ -8,7 +8,8 @@ Line-protocol front end of the C05 model.
 
 ```
 new <gridDep 0|1> <wlDep 0|1> <maxN>      start a freshly constructed element
-req <i|-> <o|-> <w|-> <gi|-> <go|->       get_instance_data(i, o, w); gi = id of
+req <i|-> <o|-> <w|-> <gi|-> <go|->       get_instance_data(i, o, w); grids are written <coord id>.<weights id> and enter the
+                                          cache through `gridKey` (the keys printed are the resulting ids); gi = id of
                                           get_input_grid(o, w) and go = id of get_output_grid(i', w)
                                           as observed on a *fresh* element ('-' = None / not needed)
 reqc <i|-> <o|-> <w|-> <gi|-> <go|-> <t>  a propagation through an element whose instances own a memo cell (FourierFilter of a
@@ -25,6 +26,10 @@ filt reset | filt get <dtype> <ndim> <[tensor shape]>
                                           value says at which call the cell was last recomputed
 zoom reset | zoom call <back 0|1> <tag>   ZoomFastFourierTransform forward/backward at complex dtype <tag>
 load <N> <M> <[buf]> <[f]>                Fft.loadArray N M buf f at positions 0..M-1 (exact rationals)
+wldiff <l1> <l2>                          `wlKeyDiffBounds`: exact rational enclosure of key(l2) - key(l1), 0 < l1 <= l2
+covers <gridDep 0|1> <wlDep 0|1> <[dims]>  `uncovered`: which of the dimensions read (0 coordinates, 1 weights, 2 wavelength of the
+                                          request) the request key does not retain
+family <name>                             the declared row of a shipped family (`shippedFamilies`) and its uncovered reads
 dnew <gridDep 0|1> <wlDep 0|1> <num>      start a fresh element made by make_agnostic_optical_element
 dreq <i|-> <o|-> <w|-> <out|->            its get_instance(i, o, w); out = id of the output grid of the element that
                                           would be constructed for input grid i ('-' = not needed)
@@ -58,6 +63,22 @@ structure St where
 def parseOptNat? (s : String) : Option (Option Nat) :=
   if s == "-" then some none else (parseNat? s).map some
 
+/-- A grid argument: `-` (None) or `<coord>.<weights>`; the cache sees `gridKey` of it. -/
+def parseOptGrid? (s : String) : Option (Option Nat) :=
+  if s == "-" then some none else
+    match s.splitOn "." with
+    | [c, w] =>
+      match parseNat? c, parseNat? w with
+      | some c, some w => some (some (gridKey ⟨c, w⟩))
+      | _, _ => none
+    | _ => none
+
+def dimOfNat? : Nat → Option Dim
+  | 0 => some .coords | 1 => some .weights | 2 => some .wavelength | _ => none
+
+def natOfDim : Dim → Nat
+  | .coords => 0 | .weights => 1 | .wavelength => 2
+
 def parseBool? (s : String) : Option Bool :=
   if s == "1" then some true else if s == "0" then some false else none
 
@@ -90,7 +111,7 @@ def showState (s : Cache.St) : String := s!"ver={s.ver} num={s.num} cache={showC
 
 def step (st : St) : List String → St × String
   | ["reqc", i, o, w, gi, go, t] =>
-    match parseOptNat? i, parseOptNat? o, parseOptNat? w, parseOptNat? gi, parseOptNat? go, parseNat? t with
+    match parseOptGrid? i, parseOptGrid? o, parseOptNat? w, parseOptGrid? gi, parseOptGrid? go, parseNat? t with
     | some i, some o, some w, some gi, some go, some t =>
       let e : Elem := { gridDep := st.gridDep, wlDep := st.wlDep, maxN := st.maxN,
                         getIn := fun _ _ _ => gi, getOut := fun _ _ _ => go }
@@ -112,7 +133,7 @@ def step (st : St) : List String → St × String
       ({ st with gridDep := g, wlDep := w, maxN := n, st := Cache.St.init 0, heap := cellContent.heap0 }, "ok")
     | _, _, _ => (st, "bad-op")
   | ["req", i, o, w, gi, go] =>
-    match parseOptNat? i, parseOptNat? o, parseOptNat? w, parseOptNat? gi, parseOptNat? go with
+    match parseOptGrid? i, parseOptGrid? o, parseOptNat? w, parseOptGrid? gi, parseOptGrid? go with
     | some i, some o, some w, some gi, some go =>
       let e : Elem := { gridDep := st.gridDep, wlDep := st.wlDep, maxN := st.maxN,
                         getIn := fun _ _ _ => gi, getOut := fun _ _ _ => go }
@@ -163,6 +184,27 @@ def step (st : St) : List String → St × String
         (st, "ok " ++ showRatList ((List.range m).map a))
       else (st, "bad-op")
     | _, _, _, _ => (st, "bad-op")
+  | ["wldiff", a, b] =>
+    match parseRat? a, parseRat? b with
+    | some l1, some l2 =>
+      if 0 < l1 ∧ l1 ≤ l2 then
+        let bd := wlKeyDiffBounds l1 l2
+        (st, s!"ok lo={showRat bd.1} hi={showRat bd.2}")
+      else (st, "bad-op")
+    | _, _ => (st, "bad-op")
+  | ["covers", g, w, ds] =>
+    match parseBool? g, parseBool? w, parseNatList? ds with
+    | some g, some w, some ds =>
+      match ds.mapM dimOfNat? with
+      | some reads => (st, s!"ok uncovered={showNatList ((uncovered g w reads).map natOfDim)}")
+      | none => (st, "bad-op")
+    | _, _, _ => (st, "bad-op")
+  | ["family", name] =>
+    match familyOf name with
+    | some f =>
+      (st, s!"ok grid={if f.gridDep then 1 else 0} wl={if f.wlDep then 1 else 0} reads={showNatList (f.reads.map natOfDim)} " ++
+           s!"uncovered={showNatList ((uncovered f.gridDep f.wlDep f.reads).map natOfDim)}")
+    | none => (st, "err unknown-family")
   | ["dnew", g, w, n] =>
     match parseBool? g, parseBool? w, parseNat? n with
     | some g, some w, some n => ({ st with dGrid := g, dWl := w, dNum := n, deco := Deco.DSt.init }, "ok")
